@@ -29,6 +29,11 @@ structure Case where
   alpnS : List String
   /-- rustls accepts the (bracket-stripped) host as a `ServerName` -/
   nameValid : Bool
+  /-- a `Host` header the caller put on the request: it plays no part in the TLS decision, the
+      server name or the certificate check -/
+  hostHeader : Option String := none
+  /-- the URI was assembled from parts (`Uri::builder`) rather than parsed: the scheme keeps its spelling -/
+  fromParts : Bool := false
 
 structure Obs where
   res : Res
